@@ -258,6 +258,13 @@ type hubWorld struct {
 	cdpVariant   string // how c1 names its distribution-point set: "single" | "ldap-first" | "mirror" (see newHubWorld)
 	ocspHits     int
 	pathD, pathU string
+	sameBytes    bool                 // see publish
+	lastValid    map[string]servedDoc // location -> the parseable document it serves right now, with its bytes
+}
+
+type servedDoc struct {
+	doc  hubDoc
+	body []byte
 }
 
 const pathOCSP = "/ocsp"
@@ -279,6 +286,8 @@ func newHubWorld(cfg HubCfg, shape Shape, seed int64) (*hubWorld, error) {
 	// consecutive numbers: seed/k%n patterns made dimensions move together and left whole configurations with one variant)
 	dim := rand.New(rand.NewSource(seed*0x9E3779B9 + 77))
 	pick := func(n int) int { return dim.Intn(n) }
+	h.sameBytes = pick(2) == 0
+	h.lastValid = map[string]servedDoc{}
 	sp := locationSpellings[pick(len(locationSpellings))]
 	h.pathD, h.pathU = sp[0], sp[1]
 	alg := "ecdsa"
@@ -475,6 +484,21 @@ func (h *hubWorld) publish(l string, d hubDoc) {
 		valid := BuildCRL(CRLSpec{Signer: h.cas["A"], Listed: []*big.Int{h.shape.Serial(1)}, Number: 1}, h.shape)
 		body = h.shape.Garbage(valid, h.rng)
 	default:
+		// a CA does not issue a new CRL for every fetch: in half of the worlds a document that is published again right after
+		// itself (at this location, or while the other location serves it) is the SAME bytes, not a re-issue
+		if h.sameBytes {
+			for _, from := range []string{l, map[string]string{"D": "U", "U": "D"}[l]} {
+				if prev, ok := h.lastValid[from]; ok && prev.doc.Signer == d.Signer && prev.doc.Q == d.Q && fmt.Sprint(prev.doc.Keys) == fmt.Sprint(d.Keys) {
+					body = prev.body
+				}
+			}
+		}
+		if body != nil {
+			if os.Getenv("VERIF_DEBUG") != "" {
+				fmt.Fprintf(os.Stderr, "SAMEBYTES loc=%s doc=%+v cfg=%s\n", l, d, h.cfg)
+			}
+			break
+		}
 		h.number++
 		var listed, avoid []*big.Int
 		for _, abs := range []int{1, 2} {
@@ -507,6 +531,11 @@ func (h *hubWorld) publish(l string, d hubDoc) {
 			spec.Number += 100000
 		}
 		body = BuildCRL(spec, sh)
+	}
+	if d.Q == "valid" || d.Q == "critext" {
+		h.lastValid[l] = servedDoc{d, body}
+	} else {
+		delete(h.lastValid, l)
 	}
 	if l == "U" && h.cfg.Conf == "file" {
 		if d.Q == "down" {
